@@ -2,6 +2,7 @@ package main
 
 import (
 	"fmt"
+	"os"
 	"sort"
 	"strconv"
 	"strings"
@@ -373,6 +374,24 @@ func runHistory(dr *Driver, im *Impl, lines []J, opts HistOpts) HistoryOutcome {
 			}
 			if opts.Traces {
 				send["trace"] = 1
+			}
+			if ln["op"] == "import" {
+				// the model imports what the file contains after JSON decoding (read here, not by clover)
+				var content []byte
+				if f, ok := ln["file"]; ok && f != nil {
+					content, _ = os.ReadFile(im.files[f.(string)])
+				}
+				if raw, ok := ln["raw"]; ok && raw != nil {
+					content = []byte(raw.(string))
+				}
+				send["docs"] = nil
+				if docs, err := parseExport(content); err == nil && content != nil {
+					ds := []interface{}{}
+					for _, m := range docs {
+						ds = append(ds, encDoc(m))
+					}
+					send["docs"] = ds
+				}
 			}
 			ans, kv := splitTabs(dr.Ask(send))
 			r := LineResult{Impl: er.Line, Spec: kv["spec"], All: parseAll(kv["#all"]), Trace: er.Trace, MTrace: kv["trace"], Fired: er.Fired, TxN: er.TxN}
